@@ -135,6 +135,7 @@ static void decode_val(const uint8_t *b, int type, long long &iv, double &dv, bo
 }
 bool read_elem(const sim::Image &img, const File &f, const Var &v, long long k, long long &iv, double &dv, bool &isf) {
     long long off = elem_offset(f, v, k); int ts = type_size(v.type);
+    if (off < 0 || off > (1LL << 60)) { iv = 0; dv = 0; isf = false; return false; }
     uint8_t b[8] = {0}; img.read((uint64_t)off, b, ts);
     decode_val(b, v.type, iv, dv, isf);
     return (unsigned long long)(off + ts) <= img.size;
